@@ -1560,8 +1560,10 @@ impl ArrayValueSer for Boxed {
 enum ComplexCollection {
     #[serde(rename = "empty_complex")]
     Empty([Complex; 0]),
+    /// Each part is written like a real number so that
+    /// non-finite parts survive formats that have no NaN or infinity
     #[serde(untagged)]
-    List(CowSlice<Complex>),
+    List(Vec<(F64Rep, F64Rep)>),
 }
 
 impl ArrayValueSer for Complex {
@@ -1571,13 +1573,15 @@ impl ArrayValueSer for Complex {
         if data.is_empty() {
             ComplexCollection::Empty([])
         } else {
-            ComplexCollection::List(data)
+            ComplexCollection::List(data.iter().map(|c| (c.re.into(), c.im.into())).collect())
         }
     }
     fn make_data(collection: Self::Collection) -> CowSlice<Self> {
         match collection {
             ComplexCollection::Empty(_) => CowSlice::new(),
-            ComplexCollection::List(data) => data,
+            ComplexCollection::List(data) => (data.into_iter())
+                .map(|(re, im)| Complex::new(re.into(), im.into()))
+                .collect(),
         }
     }
     fn no_scalar() -> bool {
